@@ -48,7 +48,28 @@ Definition expected_wraps_C06 : list string := [
 ].
 
 Definition expected_wraps_C07 : list string := [
-
+  "network/llmnr: ++ uint16: _++";
+  "network/llmnr: ++ uint16: _++";
+  "network/llmnr: ++ uint16: _++";
+  "network/llmnr: ++ uint16: _++";
+  "network/llmnr: narrow to uint16: uint16(len(_))";
+  "network/llmnr: narrow to uint16: uint16(len(_))";
+  "network/llmnr: narrow to uint16: uint16(len(_))";
+  "network/llmnr: narrow to uint16: uint16(len(_))";
+  "network/llmnr: narrow to uint16: uint16(len(_))";
+  "network/llmnr: narrow to uint16: uint16(len(_))";
+  "network/llmnr: narrow to uint16: uint16(len(_))";
+  "network/llmnr: narrow to uint16: uint16(len(_))";
+  "network/llmnr: narrow to uint16: uint16(len(_))";
+  "network/llmnr: narrow to uint16: uint16(len(_))";
+  "network/llmnr: narrow to uint16: uint16(len(_))";
+  "network/netbios/nbtns: ++ uint16: _++";
+  "network/netbios/nbtns: ++ uint16: _++";
+  "network/netbios/nbtns: narrow to uint16: uint16(len(_))";
+  "network/netbios/nbtns: narrow to uint16: uint16(len(_))";
+  "network/netbios/nbtns: narrow to uint16: uint16(len(_))";
+  "network/netbios/nbtns: narrow to uint16: uint16(len(_))";
+  "network/netbios/nbtns: narrow to uint8: byte(_)"
 ].
 
 Definition expected_wraps_C08 : list string := [
@@ -56,11 +77,31 @@ Definition expected_wraps_C08 : list string := [
 ].
 
 Definition expected_wraps_C09 : list string := [
-
+  "network/llmnr: ++ uint16: _++";
+  "network/llmnr: ++ uint16: _++";
+  "network/llmnr: ++ uint16: _++";
+  "network/llmnr: ++ uint16: _++";
+  "network/llmnr: narrow to uint16: uint16(len(_))";
+  "network/llmnr: narrow to uint16: uint16(len(_))";
+  "network/llmnr: narrow to uint16: uint16(len(_))";
+  "network/llmnr: narrow to uint16: uint16(len(_))";
+  "network/llmnr: narrow to uint16: uint16(len(_))";
+  "network/llmnr: narrow to uint16: uint16(len(_))";
+  "network/llmnr: narrow to uint16: uint16(len(_))";
+  "network/llmnr: narrow to uint16: uint16(len(_))";
+  "network/llmnr: narrow to uint16: uint16(len(_))";
+  "network/llmnr: narrow to uint16: uint16(len(_))";
+  "network/llmnr: narrow to uint16: uint16(len(_))"
 ].
 
 Definition expected_wraps_C10 : list string := [
-
+  "network/netbios/nbtns: ++ uint16: _++";
+  "network/netbios/nbtns: ++ uint16: _++";
+  "network/netbios/nbtns: narrow to uint16: uint16(len(_))";
+  "network/netbios/nbtns: narrow to uint16: uint16(len(_))";
+  "network/netbios/nbtns: narrow to uint16: uint16(len(_))";
+  "network/netbios/nbtns: narrow to uint16: uint16(len(_))";
+  "network/netbios/nbtns: narrow to uint8: byte(_)"
 ].
 
 Definition expected_wraps_C11 : list string := [
@@ -88,11 +129,38 @@ Definition expected_wraps_C16 : list string := [
 ].
 
 Definition expected_wraps_C17 : list string := [
-
+  "network/netbios/nbtns: ++ uint16: _++";
+  "network/netbios/nbtns: ++ uint16: _++";
+  "network/netbios/nbtns: narrow to uint16: uint16(len(_))";
+  "network/netbios/nbtns: narrow to uint16: uint16(len(_))";
+  "network/netbios/nbtns: narrow to uint16: uint16(len(_))";
+  "network/netbios/nbtns: narrow to uint16: uint16(len(_))";
+  "network/netbios/nbtns: narrow to uint8: byte(_)"
 ].
 
 Definition expected_wraps_C18 : list string := [
-
+  "network/llmnr: ++ uint16: _++";
+  "network/llmnr: ++ uint16: _++";
+  "network/llmnr: ++ uint16: _++";
+  "network/llmnr: ++ uint16: _++";
+  "network/llmnr: narrow to uint16: uint16(len(_))";
+  "network/llmnr: narrow to uint16: uint16(len(_))";
+  "network/llmnr: narrow to uint16: uint16(len(_))";
+  "network/llmnr: narrow to uint16: uint16(len(_))";
+  "network/llmnr: narrow to uint16: uint16(len(_))";
+  "network/llmnr: narrow to uint16: uint16(len(_))";
+  "network/llmnr: narrow to uint16: uint16(len(_))";
+  "network/llmnr: narrow to uint16: uint16(len(_))";
+  "network/llmnr: narrow to uint16: uint16(len(_))";
+  "network/llmnr: narrow to uint16: uint16(len(_))";
+  "network/llmnr: narrow to uint16: uint16(len(_))";
+  "network/netbios/nbtns: ++ uint16: _++";
+  "network/netbios/nbtns: ++ uint16: _++";
+  "network/netbios/nbtns: narrow to uint16: uint16(len(_))";
+  "network/netbios/nbtns: narrow to uint16: uint16(len(_))";
+  "network/netbios/nbtns: narrow to uint16: uint16(len(_))";
+  "network/netbios/nbtns: narrow to uint16: uint16(len(_))";
+  "network/netbios/nbtns: narrow to uint8: byte(_)"
 ].
 
 Definition expected_wraps_C19 : list string := [
